@@ -98,7 +98,9 @@ class Ctx:
     def take(self, cur, n, fname, cname):
         if n < 0:
             raise Reject(cur, fname, cname, "negative size")
-        if cur < 0 or cur + n > self.n:
+        if cur < 0 or (n > 0 and cur + n > self.n):
+            # (a read of ZERO bytes needs no input: like an empty sequence or an Em it is accepted wherever the cursor is,
+            # also beyond the end of the input)
             raise Reject(cur, fname, cname, "short read")
         if n:
             self.consumed.append((cur, cur + n))
